@@ -32,6 +32,13 @@ CLAIMED = {
                 ref='DESIGN.md §3 C12'),
 }
 
+CLAIMED.update({
+    'C13': dict(text='one machine cycle and one LCDC write from every LCD timing state satisfying the representation invariant (proved inductive, holds after New()): LY = frame index/114, STAT mode = documented mode of the frame index, 17556-cycle frame, first line after switch-on two cycles short, immediate off (LY 0, mode 0) and restart at line 0 mode 2; plus a 240-cycle concrete-count cross-check after power-up and after an off/on switch at any point',
+                ref='DESIGN.md §3 C13', note=NOTE + '; renderPixel and the sprite scan are replaced by no-ops here (their frame condition is checked in C15)'),
+    'C14': dict(text='one machine cycle from every LCD timing state (inductive invariant of C13), every LYC, each single STAT source / none / any combination: VBlank requested iff line 144 begins, STAT requested iff the enabled source has its rising edge, nothing requested while off, other IF bits and IE untouched, register writes request nothing',
+                ref='DESIGN.md §3 C14', note=NOTE + '; renderPixel and the sprite scan are replaced by no-ops here (their frame condition is checked in C15)'),
+})
+
 NA_REASON = {
 }
 
